@@ -53,6 +53,7 @@ RULE = ("cases = (family, seed) from a seeded stream, the six families interleav
 WORKERS = {"quick": 8, "thorough": 16}
 BUDGET = {"quick": 60, "thorough": 900}
 ENV = {"OMP_NUM_THREADS": "2", "OMP_WAIT_POLICY": "passive"}  # 16 spinning threads on 40 atoms cost 0.5 s per call
+N_LONG = {"quick": 3, "thorough": 10}
 FAMILIES = ["contacts", "shape", "thermo", "rdf", "drid", "order"]
 NCASES = {"quick": 900, "thorough": 9000}  # per family
 FLOORS = {"quick": {"contacts.column": 700, "contacts.column.soft_min": 250, "contacts.column.periodic": 350, "contacts.pairs": 200,
@@ -90,6 +91,10 @@ def _gen_cases(tier, seed):
     for i in range(n * len(FAMILIES)):
         fam = FAMILIES[i % len(FAMILIES)]
         yield dict(i=i, fam=fam, seed=common.case_seed(seed, "C16", i), big=(tier == "thorough"))
+    # long trajectories x every residue pair: tens of millions of atom-pair distances behind one call (the reduction from
+    # atom pairs to residue pairs then works on arrays far larger than any cache or scratch limit)
+    for k in range(N_LONG[tier]):
+        yield dict(i=n * len(FAMILIES) + k, fam="contacts", seed=common.case_seed(seed, "C16long", k), big=False, long=True)
 
 
 def run_case(case, ctx):
@@ -141,7 +146,7 @@ def _diameter(x):
 
 
 # =============================================================================================== contacts
-def _protein_piece(rng, big):
+def _protein_piece(rng, big, maxres=None):
     import mdtraj as md
     name = SOURCES[int(rng.integers(len(SOURCES)))]
     t, res_atoms, prot, first = _src(name)
@@ -151,7 +156,7 @@ def _protein_piece(rng, big):
     for _ in range(int(rng.integers(1, 3))):
         ch = chains[int(rng.integers(len(chains)))]
         rl = [r.index for r in ch.residues]
-        Lr = int(rng.integers(1, (10 if big else 6) + 1))
+        Lr = int(rng.integers(1, (10 if big else 6) + 1)) if maxres is None else int(rng.integers(maxres // 2, maxres + 1))
         Lr = min(Lr, len(rl))
         s = int(rng.integers(0, len(rl) - Lr + 1))
         sel.update(rl[s:s + Lr])
@@ -169,8 +174,8 @@ def _protein_piece(rng, big):
 
 def _build_contacts(rng, case, ctx):
     import mdtraj as md
-    big = case["big"]
-    if rng.random() < 0.25:
+    big = case["big"] or bool(case.get("long"))
+    if rng.random() < 0.25 and not case.get("long"):
         na = int(rng.integers(4, 60 if big else 36))
         top = common.random_topology(rng, na, rich=True, bonds=False)
         xyz0 = rng.normal(scale=0.6, size=(1, na, 3)).astype(np.float32)
@@ -181,7 +186,7 @@ def _build_contacts(rng, case, ctx):
         t = None
         names = []
         for _ in range(npieces):
-            p, nm = _protein_piece(rng, big)
+            p, nm = _protein_piece(rng, big, maxres=24 if case.get("long") else None)
             names.append(nm)
             if t is None:
                 t = p
@@ -203,7 +208,25 @@ def _build_contacts(rng, case, ctx):
             t = t.atom_slice(np.where(keep)[0])
     nf = int(rng.integers(1, 4))
     x0 = t.xyz[0].astype(np.float64)
-    xyz = np.stack([x0 + (rng.normal(scale=0.03, size=x0.shape) if f else 0.0) for f in range(nf)])
+    if case.get("long"):
+        # atom pairs behind contacts='all' (same chain, three or more residues apart), all atoms / heavy atoms only
+        sizes = {}
+        for r in t.topology.residues:
+            sizes[r.index] = (r.chain.index, r.n_atoms, sum(1 for a in r.atoms if a.element is not None and a.element.symbol != "H"))
+        rl = sorted(sizes)
+        est = [0, 0]
+        for ai, i in enumerate(rl):
+            for j in rl[ai + 3:]:
+                if sizes[i][0] == sizes[j][0]:
+                    est[0] += sizes[i][1] * sizes[j][1]
+                    est[1] += sizes[i][2] * sizes[j][2]
+        case = dict(case, _est=est)
+        nf = int(min(4000, max(50, np.ceil(2.2 * 2 ** 24 / max(1.0, est[0])))))
+        xyz = (x0[None] + rng.normal(scale=0.03, size=(nf,) + x0.shape).astype(np.float32)).astype(np.float32)
+        xyz[0] = x0
+        ctx.observe("contacts.long", "frames=%d atoms=%d" % (nf, t.n_atoms))
+    else:
+        xyz = np.stack([x0 + (rng.normal(scale=0.03, size=x0.shape) if f else 0.0) for f in range(nf)])
     t = md.Trajectory(xyz.astype(np.float32), t.topology)
     # cell
     cellmode = ["none", "ortho-small", "ortho", "triclinic"][int(rng.integers(4))]
@@ -239,7 +262,9 @@ def _run_contacts(case, ctx, rng):
     table = F.residue_table(t.topology)
     nres = len(table)
     scheme = F.SCHEMES[int(rng.integers(5))]
-    mode = "all" if rng.random() < 0.45 else "pairs"
+    mode = "all" if (rng.random() < 0.45 or case.get("long")) else "pairs"
+    if case.get("long"):
+        scheme = "closest" if scheme in ("ca", "closest") or rng.random() < 0.5 else scheme
     ignore_np = bool(rng.random() < 0.5)
     periodic = bool(rng.random() < 0.6)
     soft = bool(rng.random() < 0.4)
@@ -276,10 +301,13 @@ def _run_contacts(case, ctx, rng):
     for sch in schemes:
         if len(schemes) > 1:
             ctx.observe("contacts.scheme", sch)
-        _contacts_one(ctx, t, table, cellmode, sch, mode, ignore_np, periodic, soft, beta, contacts, P, container)
+        frames = None
+        if case.get("long"):
+            frames = sorted({0, t.n_frames - 1, t.n_frames // 2} | {int(v) for v in rng.integers(0, t.n_frames, 5)})
+        _contacts_one(ctx, t, table, cellmode, sch, mode, ignore_np, periodic, soft, beta, contacts, P, container, frames=frames)
 
 
-def _contacts_one(ctx, t, table, cellmode, scheme, mode, ignore_np, periodic, soft, beta, contacts, P, container):
+def _contacts_one(ctx, t, table, cellmode, scheme, mode, ignore_np, periodic, soft, beta, contacts, P, container, frames=None):
     import mdtraj as md
     from mdtraj.geometry import squareform
     n_ca = [sum(1 for i, n, s in r["atoms"] if n == "CA") for r in table]
@@ -382,7 +410,10 @@ def _contacts_one(ctx, t, table, cellmode, scheme, mode, ignore_np, periodic, so
         cols_plus.append((plus_i, plus_j))
         cols_minus.append((si[0], sj[0]))
     n_ok = n_bad = 0
-    for f in range(nf):
+    if frames is not None:
+        total = nf * sum(len(a) * len(b) for a, b in cols_plus)
+        ctx.observe("contacts.long.atom-pair-distances", "more than 2^25" if total > 2 ** 25 else ("2^24..2^25" if total > 2 ** 24 else "fewer than 2^24"))
+    for f in (range(nf) if frames is None else frames):
         cell = cells[f] if cells is not None else None
         tau = _tau_d(t.xyz[f], cell)
         dp = F.batched_pair_distances(x64[f], cols_plus, cell)
